@@ -13,7 +13,7 @@
 //! indices index the body of the calibration that was used.
 
 use super::c17::{build, model_expand, texts};
-use crate::engine::{lib, Check, Ctx, Outcome, Property, Src, Tier};
+use crate::engine::{lib, Check, Ctx, Failure, Outcome, Property, Src, Tier};
 use crate::gen::calprog::{self, CalOpts};
 use crate::model::cal::{self, CalSet, Child, Expansion, Tree};
 use crate::{ensure, fail};
@@ -87,6 +87,8 @@ fn check_expansion(
         if child_out.is_empty() {
             // nothing of this body instruction reached the output (hoisted DECLARE, or an expansion
             // that was hoisted entirely): an entry, if present, must not claim any output position
+            out.class("hoisted-inside-expansion");
+            out.nontrivial = true;
             if let Some(en) = entry {
                 match en.target_location() {
                     ExpansionResult::Unmodified(t) => fail!(
@@ -102,8 +104,6 @@ fn check_expansion(
                     ),
                 }
             }
-            out.class("hoisted-inside-expansion");
-            out.nontrivial = true;
             continue;
         }
         let Some(en) = entry else {
@@ -130,8 +130,116 @@ fn check_expansion(
     }
     ensure!(entry_iter.next().is_none(), "c19:nested-extra-entry", "[{text}]: nested map has an entry for a source index that does not exist or is out of order");
     ensure!(cursor == abs_end, "c19:nested-cover", "[{text}]: nested entries cover up to {cursor} of the parent range [{abs_start}, {abs_end})");
+    // inverse queries on the nested map, in parent-relative indices
+    for rel in 0..abs_end - abs_start {
+        let sources: Vec<usize> = lib(|| e.expansions().list_sources(&InstructionIndex(rel)).into_iter().map(|s| s.0).collect())?;
+        ensure!(
+            sources.len() == 1,
+            "c19:nested-list-sources",
+            "[{text}]: inside the range [{abs_start}, {abs_end}) the nested map gives sources {sources:?} for relative target {rel}"
+        );
+        let targets = lib(|| e.expansions().list_targets(&InstructionIndex(sources[0])).len())?;
+        ensure!(targets == 1, "c19:nested-list-targets", "[{text}]: nested list_targets({}) returned {targets} entries", sources[0]);
+    }
     Ok(())
 }
+
+// ---------------------------------------------------------------------------------------------
+// Known finding c19-hoist-nested-records: what `CalibrationExpansion::remove_target_index` leaves
+// behind. The structure below re-states the library's bookkeeping (pre-hoist nested records, then
+// one removal per hoisted instruction) so that a failure inside an expansion that hoists something
+// is attributed to the finding only when the map is *exactly* this; anything else is reported.
+
+#[derive(Clone, Debug, PartialEq)]
+struct Rec {
+    start: usize,
+    end: usize,
+    entries: Vec<(usize, Loc)>,
+}
+
+#[derive(Clone, Debug, PartialEq)]
+enum Loc {
+    U(usize),
+    R(Rec),
+}
+
+fn of_library(e: &CalibrationExpansion) -> Rec {
+    Rec {
+        start: e.range().start.0,
+        end: e.range().end.0,
+        entries: e
+            .expansions()
+            .entries()
+            .iter()
+            .map(|en| {
+                (
+                    en.source_location().0,
+                    match en.target_location() {
+                        ExpansionResult::Unmodified(t) => Loc::U(t.0),
+                        ExpansionResult::Rewritten(r) => Loc::R(of_library(r)),
+                    },
+                )
+            })
+            .collect(),
+    }
+}
+
+/// Nested records as first built, counting every expanded instruction (hoisted ones included).
+fn pre_hoist(tree: &Tree) -> Rec {
+    let mut len = 0usize;
+    let mut entries = vec![];
+    for (k, c) in tree.children.iter().enumerate() {
+        match c {
+            Child::Unchanged(_) => {
+                entries.push((k, Loc::U(len)));
+                len += 1;
+            }
+            Child::Expanded(list, t) => {
+                let mut r = pre_hoist(t);
+                r.start = len;
+                len += list.len();
+                r.end = len;
+                entries.push((k, Loc::R(r)));
+            }
+        }
+    }
+    Rec { start: 0, end: len, entries }
+}
+
+fn remove_target_index(rec: &mut Rec, t: usize) {
+    if rec.start >= t {
+        rec.start = rec.start.saturating_sub(1);
+    }
+    if rec.end > t {
+        rec.end = rec.end.saturating_sub(1);
+    }
+    if let Some(within) = t.checked_sub(rec.start) {
+        rec.entries.retain_mut(|(_, loc)| match loc {
+            Loc::R(r) => {
+                remove_target_index(r, within);
+                r.start < r.end
+            }
+            Loc::U(_) => true,
+        });
+    }
+}
+
+fn as_remove_target_index_leaves_it(list: &[Instruction], tree: &Tree, abs_start: usize) -> Rec {
+    let mut rec = pre_hoist(tree);
+    let mut added = 0usize;
+    for i in list {
+        if cal::is_body_instruction(i) {
+            added += 1;
+        } else {
+            remove_target_index(&mut rec, added);
+        }
+    }
+    rec.start = abs_start;
+    rec.end = abs_start + added;
+    rec
+}
+
+pub const HOIST_SIG: &str = "c19:nested-records-after-hoist";
 
 impl Property for C19Prop {
     fn id(&self) -> &'static str {
@@ -144,7 +252,7 @@ impl Property for C19Prop {
         700
     }
     fn cases(&self, tier: Tier) -> u64 {
-        tier.pick(60_000, 1_500_000)
+        tier.pick(300_000, 12_000_000)
     }
     fn run(&self, src: &mut Src, ctx: &Ctx, out: &mut Outcome) -> Check {
         let opts = CalOpts { growth: false, max_cals: ctx.tier.pick(4, 6), max_body: 4 };
@@ -224,7 +332,24 @@ fn check(definitions: &[Instruction], top: &[Instruction], ctx: &Ctx, out: &mut 
                 let (rs, re) = (r.range().start.0, r.range().end.0);
                 ensure!(rs == cursor, "c19:range-position", "[{text}]: source {s} is rewritten into [{rs}, {re}) but the next uncovered output index is {cursor}");
                 ensure!(re >= rs, "c19:range-negative", "[{text}]: range {:?}", r.range());
-                check_expansion(&text, &set, r, rs, re, list, tree, &output, 0, out)?;
+                let mut verdict = check_expansion(&text, &set, r, rs, re, list, tree, &output, 0, out);
+                if list.iter().any(|i| !cal::is_body_instruction(i)) {
+                    out.class("hoisting-expansion");
+                    if let Err(f) = &verdict {
+                        if of_library(r) == as_remove_target_index_leaves_it(list, tree, rs) {
+                            verdict = Err(Failure {
+                                sig: HOIST_SIG.to_string(),
+                                msg: format!(
+                                    "the nested records of source {s} are what remove_target_index leaves after hoisting an instruction out of the expansion, not what the output holds: {} [{}]",
+                                    f.msg, f.sig
+                                ),
+                            });
+                        }
+                    }
+                }
+                // a failure that belongs to an active known finding is counted; the other entries
+                // and the inverse queries of this case are still checked
+                ctx.tolerate(out, verdict)?;
                 cursor = re;
             }
             (got, _) => fail!("c19:entry-kind", "[{text}]: entry for source {s} has the wrong kind: {got:?}"),
